@@ -65,6 +65,13 @@ pub fn generate(kind: &str, seed: u64) -> Option<Vec<u8>> {
             let src = gen_grammar(&mut rng);
             mutate_tokens(&src, &mut rng).into_bytes()
         }
+        "syn" => gen_syn(&mut rng).text.into_bytes(),
+        // the template of the seed-th category alone (every category is emitted at least once per run)
+        "synone" => syn_single(syn_categories().get(seed as usize)?)?.into_bytes(),
+        "synmut" => {
+            let src = gen_syn(&mut rng).text;
+            mutate_tokens(&src, &mut rng).into_bytes()
+        }
         "prog" => {
             let p = gen_program(&mut rng, &progen_opts());
             render(&p, &|_| true).into_bytes()
@@ -419,6 +426,23 @@ pub fn plan(rng: &mut Rng, scale: u64, thorough: bool, repo: &str, hist: &mut Hi
             specs.push(format!("{}:{}", kind, rng.next() >> 20));
         }
     }
+    // one template per syntactic category of the front end (see c08_syn.rs) and token-level mutations of such programs
+    for c in syn_categories() {
+        hist.0.entry(format!("cat/syn/{}", c)).or_insert(0);
+    }
+    for (k, c) in syn_categories().iter().enumerate() {
+        hist.add(&format!("cat/syn/{}", c));
+        specs.push(format!("synone:{}", k));
+    }
+    for (kind, n) in [("syn", 220u64), ("synmut", 80)] {
+        for _ in 0..per(n) {
+            let seed = rng.next() >> 20;
+            for c in &gen_syn(&mut Rng::new(seed)).cats {
+                hist.add(&format!("cat/syn/{}", c));
+            }
+            specs.push(format!("{}:{}", kind, seed));
+        }
+    }
     // preprocessor-grammar programs (several files + their own API defines) and their token-level mutations
     for (kind, n) in [("pp", 260u64), ("ppmut", 120)] {
         for _ in 0..per(n) {
@@ -448,7 +472,7 @@ pub fn plan(rng: &mut Rng, scale: u64, thorough: bool, repo: &str, hist: &mut Hi
         let names = super::materialise(&spec).map(|m| pipeline_names(&m.bytes)).unwrap_or_default();
         let heavy = spec.starts_with("repo:") || spec.starts_with("rmut:");
         // the preprocessor does not depend on the target beyond RSSL_TARGET_*: one HLSL flavour + Metal in quick
-        let two_targets = heavy || spec.starts_with("pp:") || spec.starts_with("ppmut:");
+        let two_targets = heavy || spec.starts_with("pp:") || spec.starts_with("ppmut:") || spec.starts_with("synone:");
         let defs: Vec<(String, String)> = if rng.chance(1, 5) {
             let (n, v) = *rng.pick(API_DEFINES);
             vec![(n.to_string(), v.to_string())]
@@ -483,3 +507,4 @@ fn pick_mode_named(rng: &mut Rng, names: &[String]) -> Mode {
 
 include!("c08_grammar.rs");
 include!("c08_pp.rs");
+include!("c08_syn.rs");
